@@ -1,10 +1,19 @@
 ENGINES = [
+    {"name": "fragcheck", "path": "/verif/fragcheck", "serves_properties": ["C01"],
+     "kind_free_text": "fragment contracts of Expr.__teal__: real method executed on opaque child proxies, symbolic execution of the returned block graph against the documented meaning (z3, uninterpreted child semantics, cut-point simulation for loops)"},
     {"name": "pyvc", "path": "/verif/pyvc", "serves_properties": ["C02", "C16"],
      "kind_free_text": "symbolic executor of a Python subset over the real source (ast re-read on every run) with sidecar contracts, loop invariants, callee contracts; VCs discharged by z3 (cvc5 for unknowns)"},
 ]
 NOTES = "Obligation kinds P/E/F are counted as proved; B (bounded stand-ins) are labelled and never counted. See DESIGN.md."
 NOT_APPLICABLE = {}
 CHECKS = {
+    "C01": {
+        "level": "proof", "engine": "fragcheck",
+        "technique": "fragment contracts: the real __teal__ of every anchored construct run on opaque children, resulting block graph vs documented meaning by z3 for all run-time states (loops by cut-point simulation); bounded native stand-in for the block passes",
+        "text": "Per construct (operators, Seq, If/ElseIf, Cond, While, For with Break/Continue exits, Assert, Return/Approve/Reject, scratch access, MultiValue, Comment/Nonce/Pragma, SubroutineCall) the fragment built by the real method is proved equal to the documented meaning over uninterpreted child semantics: same effects in the same order, each operand once, only the selected branch / iteration. The control domain the method can observe (child types, has_return, pending exits, version, mode) is enumerated. NormalizeBlocks / sortBlocks / flattenBlocks are covered by the bounded stand-in only (for now).",
+        "note": "trusted: spec terms (documented meaning), langspec arities, meaning of control ops; meta-lemma L-frag; parametricity of constructs in their children. Whole-pipeline check is a bounded stand-in (generated programs on the spec AVM).",
+        "design_ref": "DESIGN.md 3, 5/C01",
+    },
     "C02": {
         "level": "proof",
         "technique": "contract-based deductive verification: pyvc VCs from the real AST of spillLocalSlotsDuringRecursion with ghost execution of every appended op on an array-stack AVM state (symbolic numArgs, slot count, version), z3; bounded native stand-in end to end",
